@@ -21,6 +21,7 @@ package crlrepository
 //@ spec func entryShell(e ref) bool = e != nil && e.entryLock != nil && loaderOK(e.CRLLoader)
 //@ spec func repoOK(R ref) bool = R != nil && R.crlRepositoryLock != nil && R.crlConfig != nil && R.crlConfig.CDPConfig != nil && R.logger != nil && R.crlLoaderFactory != nil && R.crlReader != nil && R.Factory != nil && factoryOK(R.Factory)
 //@ spec func resultOK(r ref) bool = r != nil && r.Issuer != nil && r.Signature != nil && r.HashAndVerifyStrategy != nil && r.HashAndVerifyStrategy.VerifyStrategy != nil
+//@ spec func entryInv(e ref) bool = e.CRLStore != nil && storeOK(e.CRLStore) && !isTempStore(e.CRLStore) && (e.LastUpdateSignatureVerifyFailed ==> resultOK(e.LastUpdateSignature)) && (!e.Loaded ==> e.Chains != nil && chainsOK(e.Chains))
 //@ spec func sigMode(R ref) int = R.crlConfig.SignatureValidationModeParsed
 
 // ---- signature verification (C04)
@@ -59,7 +60,7 @@ package crlrepository
 
 //@ func Repository.isEntryPresentAndLoaded
 //@   props C10 C13
-//@   requires repoOK(R) && unheld(R.crlRepositoryLock) && nolocks()
+//@   requires repoOK(R) && unheld(R.crlRepositoryLock) && norwlocks()
 //@   assigns L.held, H.crlrepository.Entry
 //@   ensures sameLocks()
 
@@ -117,6 +118,7 @@ package crlrepository
 //@ func Repository.updateEntry
 //@   props C08 C09 C13
 //@   requires repoOK(R) && entryShell(entry) && unheld(entry.entryLock) && storeOK(store) && isTempStore(store)
+//@   ensures closableOK(store)
 //@   assigns L.held, crlrepository.Entry.CRLStore, crlrepository.Entry.Loaded, crlrepository.Entry.LastUpdateSignatureVerifyFailed, crlrepository.Entry.LastUpdateSignature, crlrepository.Entry.Chains, crlstore.MapStore.Map, M.map[string][]uint8, crlstore.LevelDbStore.Db, X.ldbhas, X.fs
 //@   ensures sameLocks() && entryShell(entry)
 
@@ -126,7 +128,8 @@ package crlrepository
 //@   props C04 C11 C12 C13 C16 C20
 //@   requires repoOK(R) && entryShell(entry) && chains != nil && chainsOK(chains)
 //@   requires[C13] entry_lock_held: wheld(entry.entryLock)
-//@   requires entry.CRLStore != nil && storeOK(entry.CRLStore)
+//@   requires entryInv(entry)
+//@   ensures entryInv(entry)
 //@   assigns crlrepository.Entry.CRLStore, crlrepository.Entry.Loaded, crlrepository.Entry.LastUpdateSignatureVerifyFailed, crlrepository.Entry.LastUpdateSignature, crlrepository.Entry.Chains, M.map[string][]uint8, X.ldbhas, X.fs, X.net, X.retry, X.stream, X.hacc, X.hkind, E.uint8, E.any, fresh:E.*core.CertificateChainEntry, H.crlloader.MultiSchemesCRLLoader, H.crlloader.URLLoader, H.crlloader.FileLoader
 //@   ensures sameLocks()
 //@   ensures[C16,C04] loaded_only_if_accepted: entry.Loaded && !old(entry.Loaded) ==> err == nil && called(CRLReader.ReadCRL#1) && res(CRLReader.ReadCRL#1, 1) == nil && (sigMode(R) != config.SignatureValidationModeVerify || (called(verifyCRLSignature#1) && res(verifyCRLSignature#1, 1) == nil))
@@ -143,7 +146,7 @@ package crlrepository
 
 //@ func Repository.updateCrlEntry
 //@   props C04 C08 C12 C13 C15 C16 C20
-//@   requires repoOK(R) && entryShell(entry) && unheld(entry.entryLock) && unheld(R.crlRepositoryLock) && nolocks()
+//@   requires repoOK(R) && entryShell(entry) && unheld(entry.entryLock) && unheld(R.crlRepositoryLock) && norwlocks()
 //@   requires newChains != nil ==> chainsOK(newChains)
 //@   assigns L.held, crlrepository.Entry.CRLStore, crlrepository.Entry.Loaded, crlrepository.Entry.LastUpdateSignatureVerifyFailed, crlrepository.Entry.LastUpdateSignature, crlrepository.Entry.Chains, H.crlrepository.Repository.crlRepository, M.map[string]*crlrepository.Entry, crlstore.MapStore.Map, M.map[string][]uint8, crlstore.LevelDbStore.Db, H.crlloader.MultiSchemesCRLLoader, H.crlloader.URLLoader, H.crlloader.FileLoader, X.ldbhas, X.fs, X.net, X.retry, X.stream, X.hacc, X.hkind, E.uint8, E.any, E.string, fresh:E.*core.CertificateChainEntry, fresh:E.core.CertificateChain, fresh:E.core.CertificateChainEntry
 //@   ensures[C16] refresh_follows_policy: called(CRLReader.ReadCRL#1) && res(CRLReader.ReadCRL#1, 1) == nil && sigMode(R) != config.SignatureValidationModeVerify && called(verifyCRLSignature#1) && res(verifyCRLSignature#1, 1) != nil ==> err == nil
@@ -152,26 +155,26 @@ package crlrepository
 
 //@ func Repository.updateCRL
 //@   props C13 C15 C08
-//@   requires repoOK(R) && nolocks()
+//@   requires repoOK(R) && norwlocks()
 //@   assigns L.held, crlrepository.Entry.CRLStore, crlrepository.Entry.Loaded, crlrepository.Entry.LastUpdateSignatureVerifyFailed, crlrepository.Entry.LastUpdateSignature, crlrepository.Entry.Chains, H.crlrepository.Repository.crlRepository, M.map[string]*crlrepository.Entry, crlstore.MapStore.Map, M.map[string][]uint8, crlstore.LevelDbStore.Db, H.crlloader.MultiSchemesCRLLoader, H.crlloader.URLLoader, H.crlloader.FileLoader, X.ldbhas, X.fs, X.net, X.retry, X.stream, X.hacc, X.hkind, E.uint8, E.any, E.string, fresh:E.*core.CertificateChainEntry, fresh:E.core.CertificateChain, fresh:E.core.CertificateChainEntry
 
 //@ func Repository.UpdateCRLs
 //@   props C15 C13 C08
-//@   requires repoOK(R) && nolocks()
+//@   requires repoOK(R) && norwlocks()
 //@   assigns L.held, crlrepository.Entry.CRLStore, crlrepository.Entry.Loaded, crlrepository.Entry.LastUpdateSignatureVerifyFailed, crlrepository.Entry.LastUpdateSignature, crlrepository.Entry.Chains, H.crlrepository.Repository.crlRepository, M.map[string]*crlrepository.Entry, crlstore.MapStore.Map, M.map[string][]uint8, crlstore.LevelDbStore.Db, H.crlloader.MultiSchemesCRLLoader, H.crlloader.URLLoader, H.crlloader.FileLoader, X.ldbhas, X.fs, X.net, X.retry, X.stream, X.hacc, X.hkind, E.uint8, E.any, E.string, fresh:E.*core.CertificateChainEntry, fresh:E.core.CertificateChain, fresh:E.core.CertificateChainEntry
-//@   loop 1 invariant repoOK(R) && nolocks()
+//@   loop 1 invariant repoOK(R) && norwlocks()
 
 //@ func Repository.UpdateCRL
 //@   props C15 C16 C13
-//@   requires repoOK(R) && nolocks() && crlLocations != nil
+//@   requires repoOK(R) && norwlocks() && crlLocations != nil
 //@   requires chains != nil ==> chainsOK(chains)
 //@   assigns L.held, crlrepository.Entry.CRLStore, crlrepository.Entry.Loaded, crlrepository.Entry.LastUpdateSignatureVerifyFailed, crlrepository.Entry.LastUpdateSignature, crlrepository.Entry.Chains, H.crlrepository.Repository.crlRepository, M.map[string]*crlrepository.Entry, crlstore.MapStore.Map, M.map[string][]uint8, crlstore.LevelDbStore.Db, H.crlloader.MultiSchemesCRLLoader, H.crlloader.URLLoader, H.crlloader.FileLoader, X.ldbhas, X.fs, X.net, X.retry, X.stream, X.hacc, X.hkind, E.uint8, E.any, E.string, fresh:E.*core.CertificateChainEntry, fresh:E.core.CertificateChain, fresh:E.core.CertificateChainEntry
 
 //@ func Repository.AddCRL
 //@   props C10 C13 C16
-//@   requires repoOK(R) && nolocks() && crlLocations != nil && chains != nil && chainsOK(chains)
+//@   requires repoOK(R) && norwlocks() && crlLocations != nil && chains != nil && chainsOK(chains)
 //@   assigns L.held, crlrepository.Entry.CRLStore, crlrepository.Entry.Loaded, crlrepository.Entry.LastUpdateSignatureVerifyFailed, crlrepository.Entry.LastUpdateSignature, crlrepository.Entry.Chains, H.crlrepository.Repository.crlRepository, M.map[string]*crlrepository.Entry, crlstore.MapStore.Map, M.map[string][]uint8, crlstore.LevelDbStore.Db, H.crlloader.MultiSchemesCRLLoader, H.crlloader.URLLoader, H.crlloader.FileLoader, X.ldbhas, X.fs, X.net, X.retry, X.stream, X.hacc, X.hkind, E.uint8, E.any, E.string, fresh:E.*core.CertificateChainEntry, fresh:E.core.CertificateChain, fresh:E.core.CertificateChainEntry
-//@   ensures nolocks()
+//@   ensures norwlocks()
 
 //@ func Repository.tryUpdateSignatureCertFromChain
 //@   props C13
@@ -184,7 +187,7 @@ package crlrepository
 
 //@ func Repository.checkCrl
 //@   props C01 C09 C11 C13
-//@   requires repoOK(R) && nolocks() && certificate != nil
+//@   requires repoOK(R) && norwlocks() && certificate != nil
 //@   assigns L.held, crlrepository.Entry.CRLStore, crlrepository.Entry.Loaded, crlrepository.Entry.LastUpdateSignatureVerifyFailed, crlrepository.Entry.LastUpdateSignature, crlrepository.Entry.Chains, X.fs, E.uint8, X.stream
 //@   ensures sameLocks()
 //@   ensures err == nil ==> ret != nil
@@ -195,13 +198,13 @@ package crlrepository
 
 //@ func Repository.IsRevoked
 //@   props C01 C09 C10 C11 C13
-//@   requires repoOK(R) && nolocks() && certificate != nil
+//@   requires repoOK(R) && norwlocks() && certificate != nil
 //@   assigns L.held, crlrepository.Entry.CRLStore, crlrepository.Entry.Loaded, crlrepository.Entry.LastUpdateSignatureVerifyFailed, crlrepository.Entry.LastUpdateSignature, crlrepository.Entry.Chains, H.crlrepository.Repository.crlRepository, M.map[string]*crlrepository.Entry, crlstore.MapStore.Map, M.map[string][]uint8, crlstore.LevelDbStore.Db, H.crlloader.MultiSchemesCRLLoader, H.crlloader.URLLoader, H.crlloader.FileLoader, X.ldbhas, X.fs, X.net, X.retry, X.stream, X.hacc, X.hkind, E.uint8, E.any, E.string, fresh:E.*core.CertificateChainEntry, fresh:E.core.CertificateChain, fresh:E.core.CertificateChainEntry
 //@   ensures err == nil ==> ret != nil
 //@   ensures[C10] strict_gate: locations != nil && R.crlConfig.CDPConfig.CRLCDPStrict && called(Repository.isEntryPresentAndLoaded#1) && !res(Repository.isEntryPresentAndLoaded#1) ==> err != nil
 //@   ensures[C10] strict_unusable_location_denies: locations != nil && R.crlConfig.CDPConfig.CRLCDPStrict && called(CRLLoaderFactory.CreatePreferredCrlLoader#1) && res(CRLLoaderFactory.CreatePreferredCrlLoader#1, 1) != nil ==> err != nil
 //@   ensures[C10] lenient_never_denies_for_cdp: locations != nil && !R.crlConfig.CDPConfig.CRLCDPStrict && err != nil ==> called(Repository.checkCrl#1) && res(Repository.checkCrl#1, 1) != nil
-//@   loop 1 invariant repoOK(R) && nolocks()
+//@   loop 1 invariant repoOK(R) && norwlocks()
 //@   loop 1 iter_ensures[C01,C09] every_error_and_hit_ends_the_search: called(Repository.checkCrl#1) ==> res(Repository.checkCrl#1, 1) == nil && !res(Repository.checkCrl#1, 0).Revoked
 //@   ensures[C01,C09] check_error_propagates: called(Repository.checkCrl#1) && res(Repository.checkCrl#1, 1) != nil ==> err != nil
 //@   ensures[C01] hit_propagates: called(Repository.checkCrl#1) && res(Repository.checkCrl#1, 1) == nil && res(Repository.checkCrl#1, 0).Revoked ==> err == nil && ret.Revoked
@@ -218,11 +221,11 @@ package crlrepository
 //@   assigns X.fs
 //@ func Repository.Close
 //@   props C09 C13 C20
-//@   requires repoOK(R) && nolocks()
+//@   requires repoOK(R) && norwlocks()
 //@   assigns L.held, crlrepository.Entry.CRLStore, crlrepository.Entry.Loaded, crlrepository.Entry.LastUpdateSignatureVerifyFailed, crlrepository.Entry.LastUpdateSignature, crlrepository.Entry.Chains, M.map[string]*crlrepository.Entry, X.fs, X.retry
-//@   ensures nolocks()
+//@   ensures norwlocks()
 //@   loop 1 invariant repoOK(R) && wheld(R.crlRepositoryLock) && R.crlRepository != nil && (forall id string :: has(R.crlRepository, id) && R.crlRepository[id] != nil ==> entryShell(R.crlRepository[id]))
-//@   loop 1 invariant forall l int :: l != R.crlRepositoryLock ==> unheld(l)
+//@   loop 1 invariant forall l int :: l != R.crlRepositoryLock && isrwlock(l) ==> unheld(l)
 //@ func Repository.closeRepositoryEntry
 //@   props C09 C13 C20
 //@   requires repoOK(R) && wheld(R.crlRepositoryLock) && R.crlRepository != nil && entryShell(entry) && unheld(entry.entryLock)
